@@ -211,3 +211,186 @@ add("E-cachekey-02-ne-for-lt", ["C13"], "heavyhitters",
     "        if (self.n_added_sort < self.n_added()) or (self.threshold_sort != threshold):", "        if (self.n_added_sort != self.n_added()) or (self.threshold_sort != threshold):", kind="E")
 add("E-filter-01-flipped", ["C13"], "heavyhitters",
     "                    if max_count >= threshold:", "                    if threshold <= max_count:", kind="E")
+
+# ---------------------------------------------------------------------------
+# merge guards (C15)
+# ---------------------------------------------------------------------------
+G_LIN = "        if (\n            self.width != other.width\n            or self.depth != other.depth\n            or self.uint_maxval != other.uint_maxval\n        ):\n            raise TypeError(\"self and other have different width | depth | type\")"
+G_LOG16 = "        if (\n            self.width != other.width\n            or self.depth != other.depth\n            or self.uint_maxval != other.uint_maxval\n            or self.max_count != other.max_count\n            or self.num_reserved != other.num_reserved\n        ):\n            raise TypeError(\n                \"self and other have different width|depth|type|max_count|num_reserved\"\n            )\n\n        _merge_log16("
+G_LOG8 = G_LOG16.replace("_merge_log16(", "_merge_log8(")
+G_HLL = "        if self.p != other.p or self.seed != other.seed:"
+G_HH = "        if (\n            self.width != other.width\n            or self.depth != other.depth\n            or self.max_key_len != other.max_key_len\n        ):"
+for i, (attr, line) in enumerate([("width", "            self.width != other.width\n            or "), ("depth", "            or self.depth != other.depth\n"),
+                                  ("uint_maxval", "            or self.uint_maxval != other.uint_maxval\n")]):
+    add("guard-lin-%s" % attr, ["C15"], "countmin", G_LIN, G_LIN.replace(line, "            " if i == 0 else ""), rules=["guard-set"])
+for attr in ("width", "depth", "uint_maxval", "max_count", "num_reserved"):
+    line = "            self.width != other.width\n            or " if attr == "width" else "            or self.%s != other.%s\n" % (attr, attr)
+    add("guard-log16-%s" % attr, ["C15"], "countmin", G_LOG16, G_LOG16.replace(line, "            " if attr == "width" else ""), rules=["guard-set"])
+    add("guard-log8-%s" % attr, ["C15"], "countmin", G_LOG8, G_LOG8.replace(line, "            " if attr == "width" else ""), rules=["guard-set"])
+add("guard-hll-seed", ["C15", "C02"], "hyperloglog", G_HLL, "        if self.p != other.p:", rules=["guard-set"])
+add("guard-hll-p", ["C15", "C02"], "hyperloglog", G_HLL, "        if self.seed != other.seed:", rules=["guard-set"])
+add("guard-hh-maxkeylen", ["C15"], "heavyhitters", G_HH, G_HH.replace("            or self.max_key_len != other.max_key_len\n", ""), rules=["guard-set"])
+add("guard-hh-width", ["C15"], "heavyhitters", G_HH, G_HH.replace("            self.width != other.width\n            or ", "            "), rules=["guard-set"])
+add("guard-hh-depth", ["C15"], "heavyhitters", G_HH, G_HH.replace("            or self.depth != other.depth\n", ""), rules=["guard-set"])
+add("guard-hh-extra-phi", ["C15"], "heavyhitters", G_HH, G_HH.replace("            or self.max_key_len != other.max_key_len\n", "            or self.max_key_len != other.max_key_len\n            or self.phi != other.phi\n"), rules=["guard-set"])
+add("guard-log8-order", ["C15"], "countmin", G_LOG8,
+    G_LOG8.replace("            or self.uint_maxval != other.uint_maxval\n            or self.max_count != other.max_count\n", "            or self.max_count != other.max_count\n            or self.uint_maxval != other.uint_maxval\n"), rules=["guard-order"])
+add("guard-hll-statement-before", ["C15"], "hyperloglog", G_HLL, "        self.registers[0] = max(self.registers[0], other.registers[0])\n" + G_HLL, rules=["guard-first"])
+add("guard-lin-valueerror", ["C15"], "countmin", G_LIN, G_LIN.replace("raise TypeError(", "raise ValueError("), rules=["guard-first"])
+add("guard-hh-and-for-or", ["C15"], "heavyhitters", G_HH, G_HH.replace("            or self.depth", "            and self.depth"), rules=["guard-set"])
+add("guard-hll-seed-truncated-attr", ["C15", "C02", "C10"], "hyperloglog", "        self.seed = np.uint64(seed)", "        self.seed = np.uint32(seed)", rules=["attr-type", "ctor-attr", "lossless-args"])
+add("E-guard-lin-reordered", ["C15"], "countmin", G_LIN,
+    G_LIN.replace("            self.width != other.width\n            or self.depth != other.depth\n", "            self.depth != other.depth\n            or self.width != other.width\n"), kind="E")
+add("E-guard-hll-demorgan", ["C15"], "hyperloglog", G_HLL, "        if not (self.p == other.p and self.seed == other.seed):", kind="E")
+add("E-guard-hh-flipped-operands", ["C15"], "heavyhitters", G_HH, G_HH.replace("self.depth != other.depth", "other.depth != self.depth"), kind="E")
+
+# ---------------------------------------------------------------------------
+# save / load (C10, C20)
+# ---------------------------------------------------------------------------
+add("persist-01-linear-load-drops-counters", ["C10"], "countmin",
+    "            cms = CountMinLinear(*args, shared_memory=shared_memory)\n            np.copyto(cms.cms, npzfile[\"cms\"])\n            np.copyto(cms.n_added_records, npzfile[\"n_added_records\"])\n",
+    "            cms = CountMinLinear(*args, shared_memory=shared_memory)\n            np.copyto(cms.cms, npzfile[\"cms\"])\n", rules=["persist-table"])
+add("persist-02-log16-save-drops-counters", ["C10"], "countmin",
+    "            args=np.array([self.width, self.depth, self.max_count, self.num_reserved]),\n            n_added_records=self.n_added_records,\n",
+    "            args=np.array([self.width, self.depth, self.max_count, self.num_reserved]),\n", rules=["persist-table"])
+add("persist-03-hh-member-renamed-on-one-side", ["C10"], "heavyhitters",
+    "            key_lens=self.key_lens,\n", "            keylens=self.key_lens,\n", rules=["persist-table"])
+add("persist-04-hh-load-swaps-members", ["C10"], "heavyhitters",
+    "            np.copyto(hh.key_lens, npzfile[\"key_lens\"])", "            np.copyto(hh.key_lens, npzfile[\"lhh\"])", rules=["persist-table"])
+add("persist-05-hll-load-no-copy", ["C10"], "hyperloglog",
+    "            np.copyto(hll.registers, npzfile[\"hll\"])\n", "", rules=["persist-table"])
+add("args-01-log16-swapped", ["C10"], "countmin",
+    "            args=np.array([self.width, self.depth, self.max_count, self.num_reserved]),", "            args=np.array([self.width, self.depth, self.num_reserved, self.max_count]),", rules=["ctor-args"])
+add("args-02-hll-swapped", ["C10"], "hyperloglog",
+    "args=np.array([self.p, self.seed], np.uint64)", "args=np.array([self.seed, self.p], np.uint64)", rules=["ctor-args"])
+add("args-03-hh-loader-wrong-index", ["C10"], "heavyhitters",
+    "            max_key_len = np.uint64(args[2])", "            max_key_len = np.uint64(args[1])", rules=["ctor-args"])
+add("args-04-hll-float-args", ["C10"], "hyperloglog",
+    "args=np.array([self.p, self.seed], np.uint64)", "args=np.array([self.p, self.seed], np.float64)", rules=["lossless-args"])
+add("args-05-log16-uint32-args", ["C10"], "countmin",
+    "            args=np.array([self.width, self.depth, self.max_count, self.num_reserved]),", "            args=np.array([self.width, self.depth, self.max_count, self.num_reserved], np.uint32),", rules=["lossless-args"])
+add("dispatch-01-uint16-to-log8", ["C10"], "countmin",
+    "    elif cms_dtype == np.uint16:\n        return CountMinLog16.load(filename, shared_memory)", "    elif cms_dtype == np.uint16:\n        return CountMinLog8.load(filename, shared_memory)", rules=["dispatch"])
+add("dispatch-02-log8-accepts-uint16", ["C10"], "countmin",
+    "            if cms_dtype != np.uint8:", "            if cms_dtype != np.uint16:", rules=["dispatch"])
+add("dispatch-03-log16-loader-no-check", ["C10"], "countmin",
+    "            if cms_dtype != np.uint16:\n                raise TypeError(\"Saved sketch is not a CountMinLog16\")\n", "", rules=["dispatch"])
+add("fwdshm-01-module-load-drops-flag", ["C10"], "countmin",
+    "        return CountMinLinear.load(filename, shared_memory)", "        return CountMinLinear.load(filename)", rules=["fwd-shm"])
+add("fwdshm-02-hh-load-ignores-flag", ["C10"], "heavyhitters",
+    "                width, depth, max_key_len, phi, shared_memory=shared_memory\n", "                width, depth, max_key_len, phi\n", rules=["fwd-shm"])
+add("postload-01-hh-no-regenerate", ["C10", "C13"], "heavyhitters",
+    "        hh.generate_candidate_set()\n\n        return hh", "        return hh", rules=["post-load", "mutators"])
+add("E-persist-01-savez-kwargs-reordered", ["C10"], "countmin",
+    "            n_added_records=self.n_added_records,\n            cms=self.cms,\n            dtype=self.cms[0, 0],\n        )\n\n    @staticmethod\n    def load(filename: Union[str, Path], shared_memory: bool = False):\n        \"\"\"\n        Load a saved CountMinLinear",
+    "            cms=self.cms,\n            dtype=self.cms[0, 0],\n            n_added_records=self.n_added_records,\n        )\n\n    @staticmethod\n    def load(filename: Union[str, Path], shared_memory: bool = False):\n        \"\"\"\n        Load a saved CountMinLinear", kind="E")
+add("E-persist-02-npz-var-renamed", ["C10", "C20"], "hyperloglog",
+    "        with np.load(filename) as npzfile:\n            args = npzfile[\"args\"]\n            hll = HyperLogLog(*args, shared_memory=shared_memory)\n            np.copyto(hll.registers, npzfile[\"hll\"])",
+    "        with np.load(filename) as archive:\n            args = archive[\"args\"]\n            hll = HyperLogLog(*args, shared_memory=shared_memory)\n            np.copyto(hll.registers, archive[\"hll\"])", kind="E")
+add("reader-01-hll-swallow", ["C20"], "hyperloglog",
+    "        with np.load(filename) as npzfile:\n            args = npzfile[\"args\"]\n            hll = HyperLogLog(*args, shared_memory=shared_memory)\n            np.copyto(hll.registers, npzfile[\"hll\"])\n\n        return hll",
+    "        try:\n            with np.load(filename) as npzfile:\n                args = npzfile[\"args\"]\n                hll = HyperLogLog(*args, shared_memory=shared_memory)\n                np.copyto(hll.registers, npzfile[\"hll\"])\n        except Exception:\n            return HyperLogLog(shared_memory=shared_memory)\n\n        return hll",
+    rules=["no-swallow"])
+add("reader-02-hll-fromfile", ["C20"], "hyperloglog",
+    "            np.copyto(hll.registers, npzfile[\"hll\"])", "            np.copyto(hll.registers, np.fromfile(filename, np.uint8)[-int(hll.m):])", rules=["reader-api"])
+add("reader-03-linear-allow-pickle", ["C20"], "countmin",
+    "        with np.load(filename) as npzfile:\n            args = npzfile[\"args\"]\n            cms_dtype = npzfile[\"dtype\"].dtype\n            if cms_dtype != np.uint32:",
+    "        with np.load(filename, allow_pickle=True) as npzfile:\n            args = npzfile[\"args\"]\n            cms_dtype = npzfile[\"dtype\"].dtype\n            if cms_dtype != np.uint32:", rules=["reader-api"])
+add("reader-04-module-load-mmap", ["C20"], "countmin",
+    "    with np.load(filename) as npzfile:\n        cms_dtype = npzfile[\"dtype\"].dtype\n\n    if", "    with np.load(filename, mmap_mode=\"r\") as npzfile:\n        cms_dtype = npzfile[\"dtype\"].dtype\n\n    if", rules=["reader-api"])
+add("reader-05-hh-partial-on-error", ["C20"], "heavyhitters",
+    "            np.copyto(hh.key_lens, npzfile[\"key_lens\"])\n            np.copyto(hh.n_added_records, npzfile[\"n_added_records\"])\n",
+    "            try:\n                np.copyto(hh.key_lens, npzfile[\"key_lens\"])\n                np.copyto(hh.n_added_records, npzfile[\"n_added_records\"])\n            except Exception:\n                pass\n",
+    rules=["no-swallow"])
+
+# ---------------------------------------------------------------------------
+# shared memory (C16)
+# ---------------------------------------------------------------------------
+add("layout-01-hh-attacher-swaps-segments", ["C16"], "heavyhitters",
+    "        start = end\n        end += self.lhh_count.nbytes\n        self.lhh_count = np.frombuffer(\n            existing_shm.buf[start:end],\n            np.uint32,\n        ).reshape(self.depth, self.width)\n        start = end\n        end += self.key_lens.nbytes\n        self.key_lens = np.frombuffer(\n            existing_shm.buf[start:end],\n            np.uint8,\n        ).reshape(self.depth, self.width)",
+    "        start = end\n        end += self.key_lens.nbytes\n        self.key_lens = np.frombuffer(\n            existing_shm.buf[start:end],\n            np.uint8,\n        ).reshape(self.depth, self.width)\n        start = end\n        end += self.lhh_count.nbytes\n        self.lhh_count = np.frombuffer(\n            existing_shm.buf[start:end],\n            np.uint32,\n        ).reshape(self.depth, self.width)",
+    rules=["layout"])
+add("layout-02-linear-size-2wd", ["C16"], "countmin",
+    "            cms_size = int(4 * width * depth)", "            cms_size = int(2 * width * depth)", rules=["layout"])
+add("layout-03-log16-size-4wd", ["C16"], "countmin",
+    "            cms_size = int(2 * width * depth)", "            cms_size = int(4 * width * depth)", rules=["layout"])
+add("layout-04-hh-creator-keylens-4bytes", ["C16"], "heavyhitters",
+    "        key_lens_nbytes = int(1 * width * depth)", "        key_lens_nbytes = int(4 * width * depth)", rules=["layout"])
+add("layout-05-hh-block-too-small", ["C16"], "heavyhitters",
+    "                size=(lhh_nbytes + lhh_count_nbytes + key_lens_nbytes + n_added_nbytes),", "                size=(lhh_nbytes + lhh_count_nbytes + n_added_nbytes),", rules=["layout"])
+add("layout-06-linear-attacher-counters-offset", ["C16"], "countmin",
+    "            existing_shm.buf[self.cms.nbytes :], np.uint64", "            existing_shm.buf[self.cms.nbytes + 8 :], np.uint64", rules=["layout"])
+add("layout-07-linear-attacher-transposed", ["C16"], "countmin",
+    "        ).reshape(int(self.depth), int(self.width))", "        ).reshape(int(self.width), int(self.depth))", rules=["layout"])
+add("layout-08-hh-attacher-count-uint16", ["C16"], "heavyhitters",
+    "            existing_shm.buf[start:end],\n            np.uint32,\n        ).reshape(self.depth, self.width)\n        start = end\n        end += self.key_lens.nbytes",
+    "            existing_shm.buf[start:end],\n            np.uint16,\n        ).reshape(self.depth, self.width)\n        start = end\n        end += self.key_lens.nbytes", rules=["layout"])
+add("layout-09-hll-size-2m", ["C16"], "hyperloglog",
+    "            self.shm = SharedMemory(create=True, size=int(self.m))", "            self.shm = SharedMemory(create=True, size=int(2 * self.m))", rules=["layout"])
+add("alloc-01-log8-inmem-uint16", ["C16"], "countmin",
+    "            self.cms = np.zeros((depth, width), np.uint8)", "            self.cms = np.zeros((depth, width), np.uint16)", rules=["alloc-agree", "ceil"])
+add("alloc-02-hh-inmem-keylens-transposed", ["C16"], "heavyhitters",
+    "            self.key_lens = np.zeros((self.depth, self.width), np.uint8)", "            self.key_lens = np.zeros((self.width, self.depth), np.uint8)", rules=["alloc-agree"])
+add("owner-01-view-unlinks", ["C16"], "countmin",
+    "                    self.existing_shm.close()\n", "                    self.existing_shm.close()\n                    self.existing_shm.unlink()\n", rules=["owner"])
+add("owner-02-owner-never-unlinks", ["C16"], "hyperloglog",
+    "                    self.shm.close()\n                    self.shm.unlink()\n", "                    self.shm.close()\n", rules=["owner"])
+add("owner-03-attacher-assigns-shm", ["C16"], "heavyhitters",
+    "        self.existing_shm = existing_shm\n", "        self.shm = existing_shm\n", rules=["owner"])
+add("owner-04-hh-forgets-del-keylens", ["C16"], "heavyhitters",
+    "                    del self.lhh_count\n                    del self.key_lens\n                    del self.n_added_records\n                    gc.collect()\n                    sleep(0.25)\n                    self.shm.close()",
+    "                    del self.lhh_count\n                    del self.n_added_records\n                    gc.collect()\n                    sleep(0.25)\n                    self.shm.close()", rules=["owner"])
+add("argsdict-01-log16-drops-num-reserved", ["C16"], "countmin",
+    "            \"cms_type\": \"log16\",\n            \"width\": width,\n            \"depth\": depth,\n            \"max_count\": max_count,\n            \"num_reserved\": num_reserved,\n",
+    "            \"cms_type\": \"log16\",\n            \"width\": width,\n            \"depth\": depth,\n            \"max_count\": max_count,\n", rules=["argsdict"])
+add("argsdict-02-log8-says-log16", ["C16"], "countmin",
+    "            \"cms_type\": \"log8\",", "            \"cms_type\": \"log16\",", rules=["argsdict"])
+add("argsdict-03-hh-depth-is-width", ["C16"], "heavyhitters",
+    "            \"depth\": depth,\n            \"max_key_len\": max_key_len,", "            \"depth\": width,\n            \"max_key_len\": max_key_len,", rules=["argsdict"])
+add("argsdict-04-factory-swaps-args", ["C16"], "countmin",
+    "            cms = CountMinLog8(width, depth, max_count, num_reserved, shared_memory)", "            cms = CountMinLog8(width, depth, num_reserved, max_count, shared_memory)", rules=["argsdict"])
+add("attach-01-tag-table-cross", ["C16"], "helpers",
+    "    elif sketch_type == \"hh\":\n        local_sketch = HeavyHitters(**sketch_args)\n    elif sketch_type == \"hll\":\n        local_sketch = HyperLogLog(**sketch_args)",
+    "    elif sketch_type == \"hll\":\n        local_sketch = HeavyHitters(**sketch_args)\n    elif sketch_type == \"hh\":\n        local_sketch = HyperLogLog(**sketch_args)", rules=["attach-table"])
+add("attach-02-worker-gets-other-block", ["C16", "C08"], "helpers",
+    "            sketch.append((\"hh\", hh_array[i].args, hh_array[i].shm.name))", "            sketch.append((\"hh\", hh_array[i].args, hh_array[0].shm.name))", rules=["attach-table"])
+add("E-layout-01-hh-size-factors-reordered", ["C16"], "heavyhitters",
+    "        lhh_count_nbytes = int(4 * width * depth)", "        lhh_count_nbytes = int(depth * width * 4)", kind="E")
+add("E-layout-02-linear-named-offset", ["C16"], "countmin",
+    "        self.cms = np.frombuffer(\n            existing_shm.buf[: self.cms.nbytes], self.cms.dtype\n        ).reshape(int(self.depth), int(self.width))\n        self.n_added_records = np.frombuffer(\n            existing_shm.buf[self.cms.nbytes :], np.uint64\n        )",
+    "        nbytes = self.cms.nbytes\n        self.cms = np.frombuffer(\n            existing_shm.buf[:nbytes], self.cms.dtype\n        ).reshape(int(self.depth), int(self.width))\n        self.n_added_records = np.frombuffer(\n            existing_shm.buf[nbytes:], np.uint64\n        )", kind="E")
+
+# ---------------------------------------------------------------------------
+# delegation / windows (C12)
+# ---------------------------------------------------------------------------
+add("deleg-01-linear-dict-ignores-value", ["C12"], "countmin",
+    "            for key, value in keys.items():\n                self.add(key, value)", "            for key, value in keys.items():\n                self.add(key)", rules=["deleg"])
+add("deleg-02-hh-dict-swapped", ["C12"], "heavyhitters",
+    "            for key, value in keys.items():\n                self.add(key, value)", "            for key, value in keys.items():\n                self.add(value, key)", rules=["deleg"])
+add("deleg-03-linear-list-dedup", ["C12"], "countmin",
+    "        else:\n            for key in keys:\n                self.add(key)", "        else:\n            for key in set(keys):\n                self.add(key)", rules=["deleg"])
+add("deleg-04-getitem-constant", ["C12"], "countmin",
+    "        return self.query(key)", "        return self.query(key[:8])", rules=["deleg"])
+add("deleg-05-update-ngram-fixed-n", ["C12"], "hyperloglog",
+    "        for key in keys:\n            self.add_ngram(key, ngram)", "        for key in keys:\n            self.add_ngram(key, 4)", rules=["deleg"])
+add("window-01-linear-one-window-short", ["C12"], "countmin",
+    "        for i in range(key_len - (ngram - uint64(1))):\n            _add_linear(", "        for i in range(key_len - ngram):\n            _add_linear(", rules=["window"])
+add("window-02-hll-slice-short", ["C12", "C02"], "hyperloglog",
+    "            _add(registers, seed, p, m, key[i : i + ngram])", "            _add(registers, seed, p, m, key[i : i + ngram - 1])", rules=["window"])
+add("window-03-hh-stride-two", ["C12"], "heavyhitters",
+    "                key[i : i + ngram],\n                uint32(1),", "                key[2 * i : 2 * i + ngram],\n                uint32(1),", rules=["window"])
+add("window-04-log8-short-key-dropped", ["C12"], "countmin",
+    "    key_len = uint64(len(key))\n    if key_len <= ngram:\n        rand_ptr = _add_log8(", "    key_len = uint64(len(key))\n    if key_len == ngram:\n        rand_ptr = _add_log8(", rules=["window"])
+add("window-05-log16-window-multiplicity-two", ["C12"], "countmin",
+    "                key[i : i + ngram],\n                uint64(1),\n            )\n    return rand_ptr\n\n\n@njit(\n    types.void(\n        uint16[:, :],",
+    "                key[i : i + ngram],\n                uint64(2),\n            )\n    return rand_ptr\n\n\n@njit(\n    types.void(\n        uint16[:, :],", rules=["window"])
+add("window-06-hll-whole-key-sliced", ["C12", "C02"], "hyperloglog",
+    "    if key_len <= ngram:\n        _add(registers, seed, p, m, key)", "    if key_len <= ngram:\n        _add(registers, seed, p, m, key[:ngram - 1])", rules=["window"])
+add("valuefwd-01-log16-value-one", ["C12"], "countmin",
+    "            self.rand_nums,\n            self.rand_ptr,\n            key,\n            value,\n        )\n\n    def add_ngram(self, key: bytes, ngram: int) -> None:\n        \"\"\"\n        Take a given `key` and split it into ngrams of size `ngram` and then\n        add the ngrams to the sketch. If the `key` length is less than `ngram`\n        then add the whole `key`\n\n        Parameters\n        ----------\n        key : bytes\n            Element to be shingled before adding to the sketch\n        ngram : int\n            ngram size\n\n        Returns\n        -------\n        None\n\n        \"\"\"\n        self.rand_ptr = _add_ngram_log16(",
+    "            self.rand_nums,\n            self.rand_ptr,\n            key,\n            1,\n        )\n\n    def add_ngram(self, key: bytes, ngram: int) -> None:\n        \"\"\"\n        Take a given `key` and split it into ngrams of size `ngram` and then\n        add the ngrams to the sketch. If the `key` length is less than `ngram`\n        then add the whole `key`\n\n        Parameters\n        ----------\n        key : bytes\n            Element to be shingled before adding to the sketch\n        ngram : int\n            ngram size\n\n        Returns\n        -------\n        None\n\n        \"\"\"\n        self.rand_ptr = _add_ngram_log16(",
+    rules=["value-fwd"])
+add("E-window-01-lt-for-le", ["C12"], "hyperloglog",
+    "    if key_len <= ngram:\n        _add(registers, seed, p, m, key)", "    if key_len < ngram:\n        _add(registers, seed, p, m, key)", kind="E")
+add("E-window-02-loop-bound-rearranged", ["C12"], "heavyhitters",
+    "        for i in range(key_len - (ngram - uint64(1))):", "        for i in range(key_len - ngram + uint64(1)):", kind="E")
